@@ -855,6 +855,10 @@ impl LocalDestination {
             .parent()
             .ok_or_else(|| LocalDestinationErrorKind::FileDoesNotHaveParent(filename.clone()))?;
         fs::create_dir_all(dir).map_err(LocalDestinationErrorKind::DirectoryCreationFailed)?;
+        // an existing non-directory entry with this name (e.g. from an earlier restore) is replaced
+        if fs::symlink_metadata(&filename).is_ok_and(|meta| !meta.is_dir()) {
+            _ = fs::remove_file(&filename);
+        }
         fs::hard_link(&source_path, &filename).map_err(|err| {
             LocalDestinationErrorKind::HardLinkingFailed {
                 source_path,
